@@ -23,4 +23,7 @@ def check(ctx):
               mc_cfgs=[] if q else [("clean1", "CleanBoots.tla", "Clean_thorough.cfg"), ("clean2", "CleanBoots.tla", "Clean2_thorough.cfg")],
               clean_cfgs=[("clean-a", "Clean_quick.cfg"), ("clean-ab", "Clean2_quick.cfg")],
               driver_args=["--clean", "600" if q else "12000", "--max-boots", "4" if q else "6", "--max-per-boot", "5" if q else "9"],
+              # the same contract on a 1 ms grid: boots of minutes to hours followed by off-times of a few ms
+              extra_runs=[["--tick-us", "1000", "--clean-fine", "--clean", "300" if q else "6000", "--max-boots", "4" if q else "6",
+                           "--max-per-boot", "4" if q else "8"]],
               what="exact lifecycle detection on cleanly separated power cycles")
